@@ -12,7 +12,7 @@ LEVEL = "exploration"
 RULE = ("a catalogue of multi-class trees (classes of 1-4 files of several sizes over three roots - one name a string prefix of "
         "another, some groups without a copy under the first root given -, with and without hard links; one tree of names that need quoting in CSV / escaping in text and fdupes output; "
         "links; every composition of class sizes up to the bound) x filter {default, --rf-over 0/2, --unique, "
-        "--rf-under 3, --isolate, --match-links, transform keep} x format {default, json, csv, fdupes} x {stdout, -o "
+        "--rf-under 3, --isolate, --match-links, transform keep, --skip-content-hash, --skip-content-hash --isolate} x format {default, json, csv, fdupes} x {stdout, -o "
         "file} x three root orders. Oracle: header statistics recomputed from the parsed body by the documented "
         "definitions; per-group count == number of paths; sizes non-increasing; absolute paths; path order inside a "
         "group invariant under root permutation (isolate: roots contiguous in the order given); the four formats "
@@ -23,7 +23,9 @@ ASSUMPTIONS = ["redundant-file statistics are only checked on trees without hard
 
 FILTERS = [("default", []), ("rf0", ["--rf-over", "0"]), ("rf2", ["--rf-over", "2"]), ("unique", ["--unique"]),
            ("under3", ["--rf-under", "3"]), ("isolate", ["--isolate"]), ("links", ["--match-links"]),
-           ("transform", G.transform_args("keep", "pipe"))]
+           ("transform", G.transform_args("keep", "pipe")),
+           # --skip-content-hash may merge different files (C01 excludes it), but the report must still be consistent
+           ("skiphash", ["--skip-content-hash"]), ("skiphash_isolate", ["--skip-content-hash", "--isolate"])]
 FORMATS = ["default", "json", "csv", "fdupes"]
 
 
@@ -189,7 +191,7 @@ def evaluate(case):
         if st is not None:
             exp = {"group_count": len(groups), "total_file_count": sum(len(g["paths"]) for g in groups),
                    "total_file_size": sum(g["len"] * len(g["paths"]) for g in groups)}
-            isolate = fname == "isolate"
+            isolate = fname.endswith("isolate")
             under = {"unique": 2, "under3": 3}.get(fname)
             rf = {"rf0": 0, "rf2": 2}.get(fname, 1)
             if fname == "transform":
@@ -256,7 +258,7 @@ def evaluate(case):
             viol.append(dict(feat, kind="groups_depend_on_root_order", detail="%s vs %s" % (sorted(map(sorted, ga)), sorted(map(sorted, gb)))))
             continue
         for k in ga:
-            if fname == "isolate":
+            if fname.endswith("isolate"):
                 for paths, roots in ((ga[k], ORDERS[0]), (gb[k], other)):
                     seq = [roots.index(root_of(p)) for p in paths]
                     if seq != sorted(seq):
